@@ -16,8 +16,10 @@
 (*                          mark: a zero-filled tail reads as segment 0)   *)
 (* - these counterexamples are CANDIDATE findings; what counts is the real *)
 (* code on the scenarios that T_CrashFS derives from its real system calls.*)
-(* "lru_fixed" is the proposed repair (temp file + fsync + rename, delete  *)
-(* the previous generation afterwards) and must hold.                      *)
+(* "lru_fixed" is the repair of the checkpoint (temp file + fsync + rename, *)
+(* delete the previous generation afterwards; fixes/F06a.patch) and        *)
+(* "journal_fixed" the proposed repair of the journal (old content + entry *)
+(* to a temp file, fsync, rename; fixes/F06b.patch): both must hold.       *)
 (*                                                                         *)
 (* Abstraction: the data of save k to file x is a sequence of 1-2 short    *)
 (* writes with sources "s<k>:<x>:<i>"; a file shows "state k" iff its      *)
@@ -28,7 +30,7 @@
 (***************************************************************************)
 EXTENDS FS
 
-CONSTANTS Routine,    \* "index" "res" "lru" "lru_inplace" "lru_fixed" "disk" "journal"
+CONSTANTS Routine,    \* "index" "res" "lru" "lru_inplace" "lru_fixed" "disk" "journal" "journal_fixed"
           MaxSaves,   \* saves per behaviour; a crash may hit any of them (0..MaxSaves-1 prior saves)
           Strict      \* TRUE: DirOpsPrefix crash model (informational)
 
@@ -90,6 +92,11 @@ Protocols(k, f) ==
          {<<EOpen("extract_bu", TRUE, FALSE)>>
             \o (IF k = 1 THEN <<EWrite("extract_bu", 0, 1, "hdr:v"), EWrite("extract_bu", 1, 1, "hdr:max")>> ELSE <<>>)
             \o <<EWrite("extract_bu", 2 * k, 2, Src(k, "seg", 1))>>}
+    [] Routine = "journal_fixed" ->
+         \* read the journal, write header + old entries + the new entry to a temp file, fsync, rename
+         {<<EOpen("extract_bu.tmp", TRUE, TRUE), EWrite("extract_bu.tmp", 0, 1, "hdr:v"), EWrite("extract_bu.tmp", 1, 1, "hdr:max")>>
+            \o [i \in 1..k |-> EWrite("extract_bu.tmp", 2 * i, 2, Src(i, "seg", 1))]
+            \o <<ESync("extract_bu.tmp"), ERename("extract_bu.tmp", "extract_bu")>>}
 
 (***************************************************************************)
 (* Recovery: what the loaders make of a directory                          *)
@@ -123,7 +130,7 @@ Recover(d) ==
     [] Routine \in {"lru", "lru_inplace", "lru_fixed"} ->
          \* find_latest_lru_file + load_from_disk: highest generation, MD5 must match
          [o \in {"lru"} |-> IF LruGens(d) = {} THEN 0 ELSE StateOf(File(d, Lru(MaxGen(d))), "lru")]
-    [] Routine = "journal" ->
+    [] Routine \in {"journal", "journal_fixed"} ->
          [o \in {"journal"} |-> IF "extract_bu" \in Names(d) THEN JournalState(File(d, "extract_bu")) ELSE 0]
 
 (***************************************************************************)
